@@ -152,7 +152,7 @@ def run(ctx):
     u = ast.unparse(ctx.src(UPGMA).func("upgma"))
     ctx.ob("R4.upgma-average", UPGMA, "upgma", "size-weighted mean, sizes added after the update",
            "(distances_v[i_min, k] * cluster_size_v[i_min] + distances_v[j_min, k] * cluster_size_v[j_min]) / (cluster_size_v[i_min] + cluster_size_v[j_min])" in u
-           and u.index("mean = ") < u.index("cluster_size_v[i_min] = cluster_size_v[i_min] + cluster_size_v[j_min]"),
+           and u.index("mean = ") < u.index("cluster_size_v[i_min] += cluster_size_v[j_min]"),
            "average linkage weights both clusters by their sizes, which are summed only afterwards", 1)
     ctx.ob("R4.upgma-heights", UPGMA, "upgma", "height = dist_min / 2; branch = height - node_heights[...]",
            "height = dist_min / 2" in u and "(height - node_heights[i_min], height - node_heights[j_min])" in u
